@@ -2,6 +2,7 @@ package main
 
 import (
 	"fmt"
+	"strings"
 
 	"golang.org/x/tools/go/ssa"
 )
@@ -183,9 +184,29 @@ func runC01(c *Check, a *Analysis) {
 	c.Rule("R-SEQ-ECHO", "every Response.SetSeq argument on the server originates only from the request context's Context.Seq", 2)
 	n := 0
 	for _, fn := range p.Fns {
-		for _, call := range append(invokesIn(fn, "Response", "SetSeq"), callsIn(fn, "(*pbResponse).SetSeq")...) {
+		var writes []headerWrite
+		eachInstr(fn, func(in ssa.Instruction) {
+			hw, ok := headerWriteOf(in)
+			if !ok || hw.Setter != "SetSeq" {
+				return
+			}
+			if cc, isC := in.(*ssa.Call); isC && !cc.Common().IsInvoke() && calleeName(cc) != "(*pbResponse).SetSeq" {
+				return
+			}
+			if cc, isC := in.(*ssa.Call); isC && cc.Common().IsInvoke() && namedOf(cc.Common().Value.Type()) != "Response" {
+				return
+			}
+			if st, isS := in.(*ssa.Store); isS {
+				if fr, _, _ := fieldOfAddr(st.Addr); !strings.HasSuffix(fr.Struct, "esponse") {
+					return
+				}
+			}
+			writes = append(writes, hw)
+		})
+		for _, hw := range writes {
+			call := hw.Instr
 			n++
-			arg := call.Common().Args[len(call.Common().Args)-1]
+			arg := hw.Val
 			ok := true
 			for _, o := range p.origins(arg) {
 				if !isLoadOf(o, "Context", "Seq") {
